@@ -185,7 +185,17 @@ pub fn dress(r: &mut Rng, b: &mut Build, non_final: bool) -> (u8, u8) {
         _ => *b"VDM",
     };
     b.delim = if r.chance(1, 3) { b'$' } else { b'!' };
-    b.tag = if r.chance(1, 4) { Some(b"s:2573345,c:1696241893*00".to_vec()) } else { None };
+    // tag blocks as relays write them (NMEA 4.10): source, time stamp, line count, and the
+    // grouping parameter g:<k>-<n>-<id> - on this line only, agreeing with the sentence's own
+    // numbering or not, with an id that differs from line to line
+    b.tag = match r.below(10) {
+        0 => Some(b"s:2573345,c:1696241893*00".to_vec()),
+        1 => Some(tag_with_checksum(format!("g:{}-{}-{}", b.k.trim_start_matches('0'), b.n.trim_start_matches('0'), r.below(10_000)))),
+        2 => Some(tag_with_checksum(format!("g:{}-{}-{},s:r003669945,c:1241544035", b.k.trim_start_matches('0'), b.n.trim_start_matches('0'), 73874))),
+        3 => Some(tag_with_checksum(format!("g:{}-{}-{},n:{}", 1 + r.below(3), 1 + r.below(5), r.below(100), r.below(1000)))),
+        4 => Some(tag_with_checksum(format!("c:{},d:ABCD,t:hello,n:{}", 1_600_000_000u64 + r.below(100_000_000), r.below(100_000)))),
+        _ => None,
+    };
     let ch = *r.pick(b"AB12");
     b.chan = vec![ch];
     if let Ok(v) = b.n.parse::<u32>() {
@@ -209,6 +219,12 @@ pub fn dress(r: &mut Rng, b: &mut Build, non_final: bool) -> (u8, u8) {
         _ => vec![],
     };
     (ch, fill)
+}
+
+/// tag block text followed by its own '*hh' checksum (XOR of the text)
+pub fn tag_with_checksum(text: String) -> Vec<u8> {
+    let x = nmea_ref::xor(text.as_bytes());
+    format!("{}*{:02X}", text, x).into_bytes()
 }
 
 /// a line the statements say is inert between the fragments of an open group
